@@ -621,11 +621,16 @@ impl CasObjectInfoV1 {
 
         let num_chunks_boundaries_section = read_u32(r)?;
 
-        s.chunk_boundary_offsets.resize(num_chunks_boundaries_section as usize, 0);
-        read_u32s(r, &mut s.chunk_boundary_offsets)?;
+        // read entry by entry with a capped preallocation, as the full-footer parsers do: the count is untrusted
+        s.chunk_boundary_offsets.reserve(prealloc_num_chunks(num_chunks_boundaries_section as usize));
+        for _ in 0..num_chunks_boundaries_section {
+            s.chunk_boundary_offsets.push(read_u32(r)?);
+        }
 
-        s.unpacked_chunk_offsets.resize(num_chunks_boundaries_section as usize, 0);
-        read_u32s(r, &mut s.unpacked_chunk_offsets)?;
+        s.unpacked_chunk_offsets.reserve(prealloc_num_chunks(num_chunks_boundaries_section as usize));
+        for _ in 0..num_chunks_boundaries_section {
+            s.unpacked_chunk_offsets.push(read_u32(r)?);
+        }
 
         // Now the final parts here.
         s.num_chunks = read_u32(r)?;
